@@ -132,6 +132,8 @@ structure Call where
   /-- the retry timer is armed for this time. -/
   deadline : Option Nat
   retries : Nat
+  /-- history variable: clock reading at the latest transmission. -/
+  sentAt : Nat
   /-- number of transmissions (calls of `e.send`). -/
   sends : Nat
   /-- number of calls of `e.drop`. -/
@@ -249,8 +251,8 @@ def Call.finish (cfg : Cfg) (c : Call) (r : Ret) : Call :=
 def finish (cfg : Cfg) (s : State) (id : Nat) (c : Call) (r : Ret) : State :=
   setCall { s with rpc := fun k => if k = id then none else s.rpc k } id (c.finish cfg r)
 
-def newCall (seq body : Nat) : Call :=
-  { seq := seq, body := body, pc := .send0, sent := false, owner := none, done := false,
+def newCall (seq body now : Nat) : Call :=
+  { seq := seq, body := body, sentAt := now, pc := .send0, sent := false, owner := none, done := false,
     res := .ok, ctxC := false, acked := false, fired := false, deadline := none, retries := 0,
     sends := 1, drops := 0, writes := [], pend := .ok, ret := none }
 
@@ -261,11 +263,11 @@ def stepStart (s : State) (id seq body : Nat) : Option State :=
   | none =>
     let s := { s with started := id :: s.started }
     if s.closed then
-      some (setCall s id { newCall seq body with owner := some .caller, pc := .fin, sends := 0, ret := some .closedRetry })
+      some (setCall s id { newCall seq body s.now with owner := some .caller, pc := .fin, sends := 0, ret := some .closedRetry })
     else
       some (setCall { s with rpc := fun k => if k = id then some (.real id) else s.rpc k,
                              ack := fun k => if k = id then true else s.ack k,
-                             log := s.log ++ [(id, seq, body)] } id (newCall seq body))
+                             log := s.log ++ [(id, seq, body)] } id (newCall seq body s.now))
 
 /-- Return of the `send` callback (first send, `retryUntilAck` head; or a re-send in the timer branch). -/
 def stepSret (cfg : Cfg) (s : State) (id : Nat) (o : Outcome) : Option State :=
@@ -308,7 +310,7 @@ def stepLoop (cfg : Cfg) (s : State) (id : Nat) (b : LoopBr) : Option State :=
         if cfg.recheck && (c.acked || c.retC) then some toWait
         else
           some (setCall { s with log := s.log ++ [(id, c.seq, c.body)] } id
-            { c with fired := false, deadline := some (s.now + cfg.interval), sends := c.sends + 1, pc := .sendR })
+            { c with fired := false, deadline := some (s.now + cfg.interval), sends := c.sends + 1, sentAt := s.now, pc := .sendR })
       else none
 
 /-- One branch of the final `select` of `Do`. -/
